@@ -78,10 +78,9 @@ def run (s : Sexp) : String :=
     | some n, some body =>
       let hasQuery := body.any (fun op => match op with | .mkq .. => true | _ => false)
       let hasNew := body.any (fun op => match op with | .new .. => true | _ => false)
-      -- F-C20-2 is repaired in /repo (fix commit c18b52a): the model tied to the code is `Quirks.c14Fixed`
       let _ := hasNew
       let trig := joinTrig [(hasQuery, "F-C20-1")]
-      s!"model={obs Quirks.c14Fixed n body}\tspec={specObs}\ttrig={trig}"
+      s!"model={obs Quirks.asIs n body}\tspec={specObs}\ttrig={trig}"
     | _, _ => "error=bad-case"
   | _ => "error=bad-case"
 end KrroodVerif.Drive.C20
